@@ -312,6 +312,7 @@ package ugo
 //@ ensures[error]  err != nil ==> vm.curFrame == old(vm.curFrame) && vm.ip == old(vm.ip)
 //@ ensures[bind]     err == nil && flags == 0 ==> forall i int :: 0 <= i && i < specFixedParams(cfunc) ==> vm.stack[vm.curFrame.basePointer+i] == old(verifrt.Snap(vm.stack[:]))[old(vm.sp)-numArgs+i]
 //@ ensures[bindrest] err == nil && flags == 0 && cfunc.Variadic && cfunc.NumParams >= 1 ==> specVarArgs(vm.stack[vm.curFrame.basePointer+cfunc.NumParams-1], old(verifrt.Snap(vm.stack[:]))[old(vm.sp)-numArgs+cfunc.NumParams-1:old(vm.sp)])
+//@ ensures[bindfresh] err == nil && flags == 0 && cfunc.Variadic && cfunc.NumParams >= 1 && vm.curFrame != old(vm.curFrame) ==> specFreshArray(vm.stack[vm.curFrame.basePointer+cfunc.NumParams-1], vm.stack[:], vm.stack[:])
 //@ ensures[undef]    err == nil ==> forall i int :: cfunc.NumParams <= i && i < cfunc.NumLocals ==> vm.stack[vm.curFrame.basePointer+i] == Undefined
 //@ split returns
 //@ modifies vm.sp, vm.ip, vm.stack, vm.frameIndex, vm.curInsts, vm.curFrame, vm.curFrame.errHandlers, vm.curFrame.ip
@@ -543,6 +544,7 @@ package ugo
 //@ ensures[fixed]    !vm.bytecode.Main.Variadic && len(args) >= vm.bytecode.Main.NumParams ==> forall i int :: 0 <= i && i < vm.bytecode.Main.NumParams ==> vm.stack[i] == args[i]
 //@ ensures[leading]  vm.bytecode.Main.Variadic && len(args) >= vm.bytecode.Main.NumParams-1 ==> forall i int :: 0 <= i && i < vm.bytecode.Main.NumParams-1 ==> vm.stack[i] == args[i]
 //@ ensures[variadic] vm.bytecode.Main.Variadic && vm.bytecode.Main.NumParams >= 1 && len(args) >= vm.bytecode.Main.NumParams-1 ==> specVarArgs(vm.stack[vm.bytecode.Main.NumParams-1], args[vm.bytecode.Main.NumParams-1:])
+//@ ensures[fresh]    vm.bytecode.Main.Variadic && vm.bytecode.Main.NumParams >= 1 && len(args) >= vm.bytecode.Main.NumParams-1 ==> specFreshArray(vm.stack[vm.bytecode.Main.NumParams-1], args, vm.stack[:])
 //@ requires verifrt.Disjoint(args, vm.stack[:])
 //@ loop 0 invariant forall k int :: 0 <= k && k < i ==> locals[k] == Undefined
 //@ modifies vm.stack
